@@ -323,6 +323,9 @@ def run(rep, facts, tier):
     _report.borrow(rep, facts, tier, 'C03', {'R03.3': 'R02.7', 'R03.9': 'R02.8', 'R03.12': 'R02.9', 'R03.1': 'R02.27', 'R03.11': 'R02.28', 'R03.14': 'R02.30'})
     _report.borrow(rep, facts, tier, 'C01', {'R01.14': 'R02.17', 'R01.15': 'R02.23'})
     _report.borrow(rep, facts, tier, 'C04', {'R04.1': 'R02.10', 'R04.4': 'R02.11', 'R04.6': 'R02.12', 'R04.13': 'R02.15', 'R04.9': 'R02.18', 'R04.10': 'R02.19', 'R04.11': 'R02.20', 'R04.14': 'R02.22', 'R04.15': 'R02.29', 'R04.16': 'R02.31'})
+    # a fragmented sample counts as received only when every fragment is (decided under C05; after seed C02h: completeness by arrival count let a duplicate stand in for a lost
+    # fragment, the sample was acknowledged with a hole in it and repair stopped)
+    _report.borrow(rep, facts, tier, 'C05', {'R05.1': 'R02.32'})
 
     # ------------------------------------------------------------ R02.13 (mutation triage: `!=` -> `==` / `&&` -> `||` in the destination filter survived every check and the suite)
     from rules import destfilter
